@@ -839,7 +839,7 @@ func c13Concurrent(r *Run, server, expiring bool, stats *c13ConcStats) {
 
 func runC13(r *Run) {
 	r.Result.Rule = "sequential: histories of 6-30 puts/gets (+ sleeps past a 60 ms expiry) on 1-2 salts of one key, seq and cas drawn relative to the stored item (-1, =, +1, +2), from 0..6 and from int64 extremes, equal and different values, through bep44.Wrapper and through a dht.Server (inbound put/get, Server.Put); " +
-		"CheckIncoming probed directly on a grid; concurrency: 2-3 Wrapper.Put/Get (and Server.Put racing an inbound put) on one target over a store that parks every call, PRNG-chosen schedules, each validated by the Lean micro-step model; non-trivial = distinct history with >= 2 puts / distinct schedule with >= 3 store calls"
+		"CheckIncoming probed directly on a grid; put histories through a dht.Server whose store's Get/Put fails with an ordinary Go error at PRNG-chosen calls (stored item must never move backwards); concurrency: 2-3 Wrapper.Put/Get (and Server.Put racing an inbound put) on one target over a store that parks every call, PRNG-chosen schedules, each validated by the Lean micro-step model; non-trivial = distinct history with >= 2 puts / distinct schedule with >= 3 store calls"
 	c13Probe(r)
 	for i := 0; i < r.n(300, 4000); i++ {
 		c13History(r, "wrapper", false)
@@ -861,6 +861,7 @@ func runC13(r *Run) {
 	for i := 0; i < r.n(15, 150); i++ {
 		c13Concurrent(r, false, true, stats)
 	}
+	r.faultyStoreStream("C13", r.n(60, 800))
 	// T1 tie: does the source fact "Put/Get hold the wrapper mutex" agree with what could be observed?
 	r.op("B44 lockfact", b2s(!stats.interleavedSeen))
 	r.note(fmt.Sprintf("concurrent schedules run: %d; interleaving of two operations' store calls observed: %v", stats.schedules, stats.interleavedSeen))
